@@ -129,6 +129,14 @@ def run_driver(repo, version, single_aperture=False):
     if single_aperture == 'one':
         I.axis_len[A] = 1          # a package tabulated at exactly one (real) aperture
     out = I.call(fi, ['DIR', filters], kwargs)
+    if 'fluxes' not in fluxes_holder:
+        # no list of results is kept: each filter's object is built and written inside the loop over the filters - the object handed to write() is the
+        # element for the generic filter
+        written = [c[1] for c in h.calls if c[0] == 'write' and isinstance(c[1], Obj) and c[1].cls is not None and c[1].cls.name == 'ConvolvedFluxes']
+        sorted_ = [c[1] for c in h.calls if c[0] == 'sort_to_match']
+        if written and all(w is written[0] for w in written) and any(o is written[0] for o in sorted_):
+            # (its rows are still in the order the SEDs were read: sort_to_match, which the hooks summarise and C07 checks on its own, is what re-orders them)
+            fluxes_holder['fluxes'] = GenList(F, written[0])
     return fi, I, h, fluxes_holder
 
 
